@@ -434,6 +434,7 @@ func (h *memoHarness) runConcurrent(t *testing.T, c *MemoCase) *Outcome {
 						for _, ti := range op.Ts {
 							batch = append(batch, uni[ti])
 						}
+						sim.PreemptSoon(1 + int(c.Sched%120))
 						if op.K == "add" {
 							ev.err = hd.AddTriples(ctx, batch)
 						} else {
